@@ -85,30 +85,30 @@ Definition loss_coef_at (fib : fiber) (f : Q) : res Q :=
   end.
 
 (* ------------------------------------------------------------------------------------------------
-   RamanSolver._create_lumped_losses: values of the lumped losses first, then the neutral value for
-   the grid points; numpy.unique(..., return_index=True) keeps, for every distinct position, the FIRST
-   occurrence in that concatenation, sorted by position. *)
-Fixpoint ins_first {V : Type} (k : Q) (v : V) (l : list (Q * V)) : list (Q * V) :=
+   RamanSolver._create_lumped_losses (after fix d757514e): the lumped losses first, then the neutral
+   value for every grid point; numpy.unique(..., return_inverse=True) gives the sorted distinct positions,
+   multiply.at accumulates ALL values that share a position.  op / one = (+, 0) in dB, ( *, 1) linear. *)
+Fixpoint ins_acc {V : Type} (op : V -> V -> V) (k : Q) (v : V) (l : list (Q * V)) : list (Q * V) :=
   match l with
   | [] => [(k, v)]
   | (k', v') :: t =>
       match k ?= k' with
       | Lt => (k, v) :: l
-      | Eq => l
-      | Gt => (k', v') :: ins_first k v t
+      | Eq => (k', op v' v) :: t
+      | Gt => (k', v') :: ins_acc op k v t
       end
   end.
-Definition merge_list {V : Type} (l : list (Q * V)) : list (Q * V) :=
-  fold_left (fun acc kv => ins_first (fst kv) (snd kv) acc) l [].
-Definition merge_grid {V : Type} (one : V) (zl : list (Q * V)) (z : list Q) : list (Q * V) :=
-  merge_list (zl ++ map (fun x => (x, one)) z).
+Definition merge_list {V : Type} (op : V -> V -> V) (l : list (Q * V)) : list (Q * V) :=
+  fold_left (fun acc kv => ins_acc op (fst kv) (snd kv) acc) l [].
+Definition merge_grid {V : Type} (op : V -> V -> V) (one : V) (zl : list (Q * V)) (z : list Q) : list (Q * V) :=
+  merge_list op (zl ++ map (fun x => (x, one)) z).
 
 (* ------------------------------------------------------------------------------------------------
    Raman off: RamanSolver.calculate_attenuation_profile, last column, in dB:
    exp(-alpha z_end) * cumprod(lumped)[-1]  ==  loss_coef*length + sum of the merged lumped losses.
    (z_end is the fibre length for every fibre that passes fiber_check.) *)
 Definition attenuation_db (fib : fiber) (a : Q) : Q :=
-  a * len_m fib + qsum (map snd (merge_grid 0 (lumped_m fib) [0; len_m fib])).
+  a * len_m fib + qsum (map snd (merge_grid Qplus 0 (lumped_m fib) [0; len_m fib])).
 
 (* Fiber.propagate, power part, one channel of frequency f and input power p [dBm] *)
 Definition fiber_power_out (fib : fiber) (f p : Q) : res Q :=
@@ -312,4 +312,4 @@ Definition solver_grid (fuel : nat) (step L : Q) : list Q := arange_fuel fuel 0 
 (* Euler solver of a fibre without pumps at input powers p (W), lumped losses given as linear factors *)
 Definition euler_fiber (alpha : list Q) (cr : list (list Q)) (lumped_lin : list (Q * Q)) (z : list Q)
            (p : list Q) : list Q :=
-  euler alpha cr (merge_grid 1 lumped_lin z) p.
+  euler alpha cr (merge_grid Qmult 1 lumped_lin z) p.
